@@ -501,6 +501,11 @@ class SymList(list):
     def __getitem__(self, i):
         if isinstance(i, SymInt):
             n = list.__len__(self)
+            k = engine().determined(i.e)
+            if k is not None:
+                if k < 0:
+                    k += n      # python list semantics
+                return list.__getitem__(self, k)
             engine().require(z3.And(i.e >= 0, i.e < n), "list index in range")
             acc = list.__getitem__(self, n - 1)
             for k in range(n - 2, -1, -1):
@@ -511,6 +516,10 @@ class SymList(list):
     def __setitem__(self, i, v):
         if isinstance(i, SymInt):
             n = list.__len__(self)
+            k = engine().determined(i.e)
+            if k is not None:
+                list.__setitem__(self, k, v)
+                return
             engine().require(z3.And(i.e >= 0, i.e < n), "list index in range")
             for k in range(n):
                 old = list.__getitem__(self, k)
@@ -864,6 +873,22 @@ class Engine:
         self._add(e == v0)
         return v0
 
+    def determined(self, e):
+        """if integer term e has exactly one feasible value on this path return it, else None"""
+        e = _simp(e)
+        if z3.is_int_value(e):
+            return e.as_long()
+        m = self._ensure_model()
+        v = m.eval(e, model_completion=True).as_long()
+        self._flush()
+        self.solver.push()
+        self.solver.add(e != v)
+        r = self._check()
+        self.solver.pop()
+        if r == z3.unsat:
+            return v
+        return None
+
     def emit(self, key, obj):
         self.emitted.setdefault(key, []).append(obj)
 
@@ -1012,6 +1037,14 @@ class Engine:
         if isinstance(prop, bool):
             prop = z3.BoolVal(prop)
         self._pending.append((name, prop, info))
+
+    def check_now(self, name, prop, info=None):
+        """obligation discharged immediately under the current path condition"""
+        saved = self._pending
+        self._pending = []
+        self.check(name, prop, info)
+        self._discharge()
+        self._pending = saved
 
     def _discharge(self):
         pend = self._pending
